@@ -103,3 +103,13 @@ Example ex_disciplined : disciplined_run ex_ops init = true.
 Proof. vm_compute. reflexivity. Qed.
 Example finding_not_disciplined : disciplined_run finding_ops init = false.
 Proof. vm_compute. reflexivity. Qed.
+
+(* --- re-seating: reseat(x, v) for void reseat(std::shared_ptr<T> &p, int v) { p = std::make_shared<T>(v); }.
+       An alias made with `auto& r = x` has its own Data block and keeps the old object; without it the old object dies. *)
+Definition reseat_ops (alias : bool) : list prim :=
+  [PCreate v0 true] ++ (if alias then [PShare v0 (PRoot (RVar 0 1))] else []) ++ [PCheckpoint] ++
+  lower spec_ret (HReseat v0) ++ [PCheckpoint; PTouch v0; PEngineEnd; PCxxRelease; PCheckpoint].
+Example reseat_events : snd (run (reseat_ops false) init) = [Live 1; Destroyed 0; Live 1; Touched 1; Destroyed 1; Live 0].
+Proof. vm_compute. reflexivity. Qed.
+Example reseat_alias_events : snd (run (reseat_ops true) init) = [Live 1; Live 2; Touched 1; Destroyed 1; Destroyed 0; Live 0].
+Proof. vm_compute. reflexivity. Qed.
